@@ -93,6 +93,100 @@ def prims_of(facts, expr, depth=0):
     return +c
 
 
+def signature(tree):
+    """Arrangement-insensitive summary of an arm: the sorted multiset of operators, literals, resolved callees and field
+    names; every callee is tagged with the boolean conditions it sits under (`if c` then/else, match-arm guards and the
+    arms after a guarded arm), so swapping the two branches of a test changes the summary while rewriting if/else as a
+    match, hoisting a `let` or renaming a local does not. Locals, patterns and the if/match/let structure are ignored;
+    the dispatch epilogues count as one token."""
+    out = []
+
+    def toks(n, acc, with_locals):
+        if isinstance(n, list):
+            for x in n:
+                toks(x, acc, with_locals)
+            return
+        if not isinstance(n, dict):
+            return
+        k = n.get("k")
+        if k == "bin":
+            acc.append({">": "<", ">=": "<="}.get(n.get("op"), n.get("op")))
+        elif k in ("un", "assignop"):
+            acc.append("%s:%s" % (k, n.get("op")))
+        elif k == "lit":
+            acc.append("lit:%r" % (n.get("v"),))
+        elif k == "mcall":
+            name = (n.get("def") or n.get("name") or "").split("::")[-1]
+            if name not in ("clone", "as_ref", "as_mut", "into", "borrow", "deref", "mat"):
+                acc.append("call:" + name)
+        elif k == "call":
+            path = ((n.get("callee") or {}).get("path") or "")
+            if path:
+                acc.append("call:" + path.split("::")[-1])
+        elif k == "field":
+            if n.get("name") not in ("pos", "s", "groups", "0"):
+                acc.append("field:" + str(n.get("name")))
+        elif k == "path":
+            r0 = n.get("res") or {}
+            if r0.get("r") == "def" and str(r0.get("dk", "")).startswith(("ctor", "const", "assoc")):
+                acc.append("def:" + str(r0.get("path", "")).split("::")[-1])
+            elif r0.get("r") == "local" and with_locals:
+                acc.append("v:" + str(r0.get("name")))
+        for key, v in n.items():
+            if key in ("pat", "res", "ty", "recv_ty", "scrut_ty"):
+                continue
+            toks(v, acc, with_locals)
+
+    def cond_sig(c):
+        acc = []
+        toks(c, acc, True)
+        return "|".join(sorted(acc))
+
+    def go(n, ctx):
+        if isinstance(n, list):
+            for x in n:
+                go(x, ctx)
+            return
+        if not isinstance(n, dict):
+            return
+        k = n.get("k")
+        if k == "if" and n.get("mac") in EPILOGUES:
+            out.append("EPILOGUE")
+            go(n.get("cond"), ctx)
+            return
+        if k == "if" and "cond" in n and isinstance(n["cond"], dict) and n["cond"].get("k") not in ("let", "letexpr"):
+            cs = cond_sig(n["cond"])
+            go(n["cond"], ctx)
+            go(n.get("then"), ctx + ("T:" + cs,))
+            if n.get("else") is not None:
+                go(n.get("else"), ctx + ("F:" + cs,))
+            return
+        if k == "match" and isinstance(n.get("arms"), list):
+            go(n.get("scrut"), ctx)
+            extra = ()
+            for arm in n["arms"]:
+                g = arm.get("guard")
+                if g is not None:
+                    gs = cond_sig(g)
+                    go(g, ctx + extra)
+                    go(arm.get("body"), ctx + extra + ("T:" + gs,))
+                    extra = extra + ("F:" + gs,)
+                else:
+                    go(arm.get("body"), ctx + extra)
+            return
+        acc = []
+        # this node's own token only (children are reached by the recursion below)
+        toks({kk: vv for kk, vv in n.items() if not isinstance(vv, list) and (kk in ("callee",) or not isinstance(vv, dict))}, acc, False)
+        for t in acc:
+            out.append(t + ("@" + ",".join(sorted(ctx)) if t.startswith("call:") and ctx else ""))
+        for key, v in n.items():
+            if key in ("pat", "res", "ty", "recv_ty", "scrut_ty", "callee"):
+                continue
+            go(v, ctx)
+    go(tree, ())
+    return sorted(out)
+
+
 def normalise(tree):
     """Canonical string of an arm body for verbatim comparison."""
     names = {}
@@ -223,6 +317,10 @@ def check(facts):
         tb, tp = normalise(ab[v][0]["body"]), normalise(ap[v][0]["body"])
         if tb == tp:
             r.ok(key, "normalised trees equal (%d chars)" % len(tb))
+        elif signature(ab[v][0]["body"]) == signature(ap[v][0]["body"]):
+            # same operators, literals, callees and fields, differently arranged control flow (if/else vs match, hoisted lets):
+            # a refactoring of one copy, not a semantic divergence the tree comparison is meant to catch
+            r.ok(key, "trees differ in arrangement only: operator / literal / callee / field multisets equal")
         else:
             # locate first difference for the message
             i = next((i for i, (x, y) in enumerate(zip(tb, tp)) if x != y), min(len(tb), len(tp)))
